@@ -268,22 +268,60 @@ func (f *frame) contractCall(callee *ssa.Function, ct *Contract, c *ssa.CallComm
 	if c != nil {
 		argVals = c.Args
 	}
+	// events: names the callee's contract speaks about are imported as deltas; other watched names
+	// that the callee may generate become unknown
+	described := map[string]bool{}
+	for _, cw := range ct.Watch {
+		described[cw] = true
+	}
+	f.noTaint = true
 	rs := f.havocCall(callee, callee.Signature, argVals, false)
-	g.st = f.st
+	f.noTaint = false
+	f.taintEvents([]*ssa.Function{callee}, described)
+	delta := vc.newState(stGhostDelta, f.st)
+	delta.mods = described
+	for cw := range described {
+		dn := delta.get("G$ncalls$"+cw, SBV64)
+		dc := delta.get("G$called$"+cw, SBool)
+		vc.assume(mkAnd(sle(i64(0), dn), sle(dn, bvLit(64, 1<<32)), mkEq(dc, slt(i64(0), dn))))
+		vc.assume(mkNot(delta.get("G$tainted$"+cw, SBool)))
+	}
+	savedWatch := vc.watch
+	vc.watch = map[string]bool{}
+	for w := range savedWatch {
+		vc.watch[w] = true
+	}
+	for cw := range described {
+		vc.watch[cw] = true
+	}
+	g.st = delta
 	g.oldSt = pre
 	for _, cl := range ct.Ensures {
 		if err := vc.P.prepare(cl, callee, contractPos(callee)); err != nil {
 			unsup("%v", err)
 		}
-		if cl.usesGhost {
-			// call events are relative to the callee's own entry: such a clause says nothing usable here
-			continue
-		}
 		env := g.env(cl, rs)
-		env.now, env.old = f.st, pre
+		env.now, env.old = delta, pre
 		vc.assume(env.eval(cl.expr))
 	}
-	f.st = g.st
+	vc.watch = savedWatch
+	// fold the callee-relative events into the caller's ghost state
+	for cw := range described {
+		if !vc.watch[cw] {
+			continue
+		}
+		dc := delta.get("G$called$"+cw, SBool)
+		dn := delta.get("G$ncalls$"+cw, SBV64)
+		f.st.set("G$called$"+cw, vc.define("G$called", mkOr(f.st.get("G$called$"+cw, SBool), dc)))
+		f.st.set("G$ncalls$"+cw, vc.define("G$ncalls", bvAdd(f.st.get("G$ncalls$"+cw, SBV64), dn)))
+		f.st.set("G$tainted$"+cw, vc.define("G$tainted", mkAnd(f.st.get("G$tainted$"+cw, SBool), mkNot(dc))))
+		for name, dv := range delta.writes {
+			if strings.HasPrefix(name, "G$ret$"+cw+"$") || strings.HasPrefix(name, "G$arg$"+cw+"$") {
+				f.st.set(name, vc.define("G$ev", mkIte(dc, dv, f.st.get(name, dv.Sort))))
+			}
+		}
+		f.st.set("G$seq$"+cw, mkIte(dc, f.bumpClock(), f.st.get("G$seq$"+cw, SBV64)))
+	}
 	return rs
 }
 
